@@ -16,6 +16,9 @@ package server
 // now on Ping of runner r parks (needsReload holds refMu) until `pingdone r 0|1` or until its 10 s context ends;
 // `ping r 3` = the same but the mock releases the caller's refMu while parked (the scheduler thread descheduled between
 // needsReload and useLoadedRunner);
+// `closefail r 0|1` = Close of runner r returns nil / an error (the call completes and counts all the same);
+// `envspell k` (first event only) = the spelling of the OLLAMA_* values the driver writes (plain, quoted, spaces);
+// options classes 0..5 = NumCtx 8/16 x use_mmap unset/true/false (fresh pointer per request);
 // `parallel n` (OLLAMA_NUM_PARALLEL, 0 = automatic), `gpumem 1` (GPU 1 has no room for a model: a second model does not
 // fit next to one still loading on GPU 0 and is put back on the queue), `gpumem K` (K >= 2, one GPU: it reports K KiB
 // free, the real PredictServerFit decides; the generator bisects each model's fit boundary), `closedelay ms` (Close of runners started from
@@ -142,7 +145,7 @@ func (e schedEv) String() string {
 	switch e.kind {
 	case "submit", "submitr":
 		return fmt.Sprintf("%s %d %d %s", e.kind, e.a, e.b, e.sess)
-	case "done", "unload", "advance", "parallel", "gpumem", "closedelay":
+	case "done", "unload", "advance", "parallel", "gpumem", "closedelay", "envspell":
 		return fmt.Sprintf("%s %d", e.kind, e.a)
 	default:
 		return fmt.Sprintf("%s %d %d", e.kind, e.a, e.b)
@@ -193,9 +196,9 @@ func schedParse(line string) (schedCfg, []schedEv, error) {
 		switch f[0] {
 		case "submit", "submitr":
 			want = 4
-		case "done", "unload", "advance", "parallel", "gpumem", "closedelay":
+		case "done", "unload", "advance", "parallel", "gpumem", "closedelay", "envspell":
 			want = 2
-		case "loaddone", "ping", "failstart", "pingdone":
+		case "loaddone", "ping", "failstart", "pingdone", "closefail":
 		default:
 			return cfg, nil, fmt.Errorf("unknown event %q", p)
 		}
@@ -225,6 +228,30 @@ func schedParse(line string) (schedCfg, []schedEv, error) {
 // an event source: a fixed script or the online generator (which looks at the real state at quiescence)
 type schedSource interface {
 	next(r *schedRun) (schedEv, bool)
+	spell() int // the spelling of the environment (`envspell`, first event of the script)
+}
+
+func (f *schedFixed) spell() int {
+	if len(f.evs) > 0 && f.evs[0].kind == "envspell" && f.evs[0].a >= 0 && f.evs[0].a <= 4 {
+		return f.evs[0].a
+	}
+	return 0
+}
+
+// schedSpell writes an environment value in one of the spellings envconfig accepts (envconfig.Var trims white space,
+// then quotes): env files of systemd / docker often carry the quotes
+func schedSpell(v string, k int) string {
+	switch k {
+	case 1:
+		return `"` + v + `"`
+	case 2:
+		return "'" + v + "'"
+	case 3:
+		return "  " + v + " "
+	case 4:
+		return ` "` + v + `"  `
+	}
+	return v
 }
 
 type schedFixed struct {
@@ -263,6 +290,7 @@ type schedMock struct {
 	closeRel     chan struct{}
 	pingBlock    bool // Ping parks until the script releases it (`pingdone`) or its ctx ends
 	pingOpen     bool // ... and lets go of the caller's refMu while parked (`ping r 3`)
+	closeErr     bool // Close returns an error (`closefail`); the call is complete all the same
 	pinging      bool
 	pingDeadline time.Time
 	pingRel      chan error
@@ -329,6 +357,10 @@ func (m *schedMock) Close() error {
 		m.closing = false
 	}
 	m.closes++
+	if m.closeErr {
+		m.r.stats["close_returned_error"]++
+		return errors.New("verif: the runner process could not be stopped")
+	}
 	return nil
 }
 
@@ -430,6 +462,8 @@ type schedRun struct {
 	gpumem     int           // `gpumem`
 	routedWait int           // scheduleRunner calls that have not returned
 	inWindow   bool
+	spell      int   // spelling of the environment values (`envspell`)
+	mutexWho   string
 	mutexSince int64 // wall clock (us) at which goroutines were first seen parked on a mutex
 }
 
@@ -683,6 +717,11 @@ func (r *schedRun) quiesce() {
 		if r.cen.mutex > 0 {
 			for _, m := range r.mocks {
 				if m.closing && len(m.closeRel) == 0 {
+					if !released {
+						// (every waiter past sync.Mutex's 1 ms starvation threshold first, see below)
+						for t0 := schedRealNow(); schedRealNow()-t0 < 1500; {
+						}
+					}
 					m.closeRel <- struct{}{}
 					r.stats["close_released_for_mutex_waiter"]++
 					released = true
@@ -702,8 +741,8 @@ func (r *schedRun) quiesce() {
 		// sync.Mutex hands a lock over directly (instead of letting a running goroutine barge in) once a waiter has waited
 		// for more than 1 ms of REAL time.  Let every waiter that is parked at a quiescent point cross that threshold, so
 		// that the hand-off order after the next event does not depend on how fast the driver happens to run.
-		if r.mutexSince == 0 {
-			r.mutexSince = schedRealNow()
+		if r.mutexSince == 0 || r.cen.mutexDesc != r.mutexWho {
+			r.mutexSince, r.mutexWho = schedRealNow(), r.cen.mutexDesc // (a new waiter: count from now)
 		}
 		for schedRealNow()-r.mutexSince < 1500 {
 		}
@@ -819,7 +858,20 @@ func (r *schedRun) refID(ref *runnerRef) int {
 }
 
 // schedOptsClass: request class k asks for NumCtx = 8+8k; a runner is started with NumCtx * numParallel
-func schedOptsClass(o api.Options, np int) int { return o.NumCtx/max(1, np)/8 - 1 }
+// and class = k + 2*mm with mm = 0 / 1 / 2 for use_mmap unset / true / false (a fresh *bool per request: options that are
+// equal by value are one class, whatever the pointers)
+func schedOptsClass(o api.Options, np int) int {
+	mm := 0
+	if o.UseMMap != nil {
+		mm = 2
+		if *o.UseMMap {
+			mm = 1
+		}
+	}
+	return o.NumCtx/max(1, np)/8 - 1 + 2*mm
+}
+
+func schedNumCtx(class int) int { return 8 + 8*(class%2) }
 
 func (r *schedRun) gpus() discover.GpuInfoList {
 	if r.cfg.cpu == 1 {
@@ -960,9 +1012,12 @@ func (r *schedRun) setup() {
 				m.loadReq = qi
 				// the options a runner is started with must be the request's: NumCtx x the parallel factor in force
 				q := r.reqs[qi]
-				if want := (8 + 8*q.opts) * max(1, m.np); m.numCtx != want {
+				if want := schedNumCtx(q.opts) * max(1, m.np); m.numCtx != want {
 					r.wrongOpt = append(r.wrongOpt, fmt.Sprintf("runner %d for request %d (model %d, NumCtx %d) was started with NumCtx %d and numParallel %d (expected NumCtx %d)",
-						m.id, qi, q.model, 8+8*q.opts, m.numCtx, m.np, want))
+						m.id, qi, q.model, schedNumCtx(q.opts), m.numCtx, m.np, want))
+				}
+				if m.opts/2 != q.opts/2 {
+					r.wrongOpt = append(r.wrongOpt, fmt.Sprintf("runner %d for request %d was started with use_mmap class %d, the request has %d", m.id, qi, m.opts/2, q.opts/2))
 				}
 				m.opts = q.opts // what it was asked to serve
 				if r.stats != nil && m.np != 1 {
@@ -1084,7 +1139,11 @@ func (r *schedRun) sessDur(s string) *api.Duration {
 func (r *schedRun) enabled(e schedEv) bool {
 	switch e.kind {
 	case "submit", "submitr":
-		return e.a >= 0 && e.a < schedNModels && (e.b == 0 || e.b == 1) && len(r.reqs) < schedMaxReqs
+		return e.a >= 0 && e.a < schedNModels && e.b >= 0 && e.b <= 5 && len(r.reqs) < schedMaxReqs
+	case "closefail":
+		return e.a >= 0 && e.a < len(r.mocks) && (e.b == 0 || e.b == 1)
+	case "envspell":
+		return len(r.executed) == 0 && e.a == r.spell // only as the first event: the environment is written before InitScheduler
 	case "parallel":
 		return e.a >= 0 && e.a <= 8
 	case "gpumem":
@@ -1130,7 +1189,14 @@ func (r *schedRun) apply(e schedEv) bool {
 		r.reqByCtx[q.ctx] = q.id
 		subq = q
 		opts := api.DefaultOptions()
-		opts.NumCtx = 8 + 8*e.b
+		opts.NumCtx = schedNumCtx(e.b)
+		reqOpts := map[string]any{"num_ctx": float64(schedNumCtx(e.b))}
+		if e.b/2 != 0 {
+			v := e.b/2 == 1
+			opts.UseMMap = &v // a fresh pointer per request, as every decoded API request has
+			reqOpts["use_mmap"] = v
+			r.stats["reqs_explicit_use_mmap"]++
+		}
 		mdl, sess := r.models[e.a], r.sessDur(e.sess)
 		granted := func(id int, nilLlama bool) {
 			q.nRunner++
@@ -1162,7 +1228,7 @@ func (r *schedRun) apply(e schedEv) bool {
 			r.routedWait++
 			r.stats["reqs_routed"]++
 			go func() {
-				llama, _, _, err := r.srv.scheduleRunner(q.ctx, mdl.ShortName, []model.Capability{model.CapabilityCompletion}, map[string]any{"num_ctx": float64(8 + 8*e.b)}, sess)
+				llama, _, _, err := r.srv.scheduleRunner(q.ctx, mdl.ShortName, []model.Capability{model.CapabilityCompletion}, reqOpts, sess)
 				r.routedWait--
 				q.returned = true
 				switch {
@@ -1248,8 +1314,12 @@ func (r *schedRun) apply(e schedEv) bool {
 		if e.a == 0 {
 			os.Unsetenv("OLLAMA_NUM_PARALLEL") // automatic
 		} else {
-			os.Setenv("OLLAMA_NUM_PARALLEL", strconv.Itoa(e.a))
+			os.Setenv("OLLAMA_NUM_PARALLEL", schedSpell(strconv.Itoa(e.a), r.spell))
 		}
+	case "closefail":
+		r.mocks[e.a].closeErr = e.b == 1
+	case "envspell":
+		// took effect before InitScheduler (schedRunOne)
 	case "gpumem":
 		r.gpumem = e.a
 	case "closedelay":
@@ -1638,25 +1708,25 @@ func (j schedJob) String() string {
 	return j.script
 }
 
-func schedSetenv(cfg schedCfg) {
+func schedSetenv(cfg schedCfg, spell int) {
 	if cfg.maxRunners > 0 {
-		os.Setenv("OLLAMA_MAX_LOADED_MODELS", strconv.Itoa(cfg.maxRunners))
+		os.Setenv("OLLAMA_MAX_LOADED_MODELS", schedSpell(strconv.Itoa(cfg.maxRunners), spell))
 	} else {
 		os.Unsetenv("OLLAMA_MAX_LOADED_MODELS") // sched.go sets it itself on first use ("HACK")
 	}
-	os.Setenv("OLLAMA_MAX_QUEUE", strconv.Itoa(cfg.maxQueue))
-	os.Setenv("OLLAMA_KEEP_ALIVE", []string{"0", "50ms", "1h"}[cfg.defSess])
-	os.Setenv("OLLAMA_NUM_PARALLEL", "1")
+	os.Setenv("OLLAMA_MAX_QUEUE", schedSpell(strconv.Itoa(cfg.maxQueue), spell))
+	os.Setenv("OLLAMA_KEEP_ALIVE", schedSpell([]string{"0", "50ms", "1h"}[cfg.defSess], spell))
+	os.Setenv("OLLAMA_NUM_PARALLEL", schedSpell("1", spell))
 	os.Unsetenv("OLLAMA_SCHED_SPREAD")
 }
 
 // schedRunOne runs one trace in its own bubble.  onUnclean is called INSIDE the bubble when the trace's goroutines
 // cannot be made to exit (the caller must leave the process).
 func schedRunOne(t *testing.T, models []*Model, cfg schedCfg, src schedSource, onUnclean func(*schedResult)) *schedResult {
-	schedSetenv(cfg)
+	schedSetenv(cfg, src.spell())
 	res := &schedResult{}
 	synctest.Test(t, func(t *testing.T) {
-		r := &schedRun{cfg: cfg, models: models}
+		r := &schedRun{cfg: cfg, models: models, spell: src.spell()}
 		r.setup()
 		r.line.WriteString(cfg.header())
 		for n := 0; n < 400; n++ {
@@ -1698,7 +1768,7 @@ func schedFitBoundary(m, k, np int) int {
 		return v
 	}
 	opts := api.DefaultOptions()
-	opts.NumCtx = (8 + 8*k) * max(1, np)
+	opts.NumCtx = schedNumCtx(k) * max(1, np)
 	fits := func(kib int) bool {
 		g := discover.GpuInfo{Library: "metal", ID: "0"}
 		g.TotalMemory = 24 * format.GigaByte
